@@ -23,7 +23,7 @@ def decl_specs(tier):
     for c in ('i2', 'sns', 'rs', 'rsl', 'srs', 'rsd', 'ss', 'os', 'r1', 'o1'):
         specs.append({'names': [c, 'i2'], 'wrapper': 'a', 'opts': {'endianness': 'little'}})
     for c in ('i1', 'dn', 'sn', 'sr', 'r1', 'm0', 'o1', 'em', 'su', 'rvec'):
-        for al in (2, 4):
+        for al in (2, 3, 4, 6):
             specs.append({'names': ['i1', c], 'wrapper': 'a', 'opts': {'align': al}})
             specs.append({'names': [c, 'i2'], 'wrapper': 'b', 'opts': {'align': al}})
     for c in ('m0', 'mab', 'rx', 'sm', 'om'):
